@@ -1550,6 +1550,10 @@ pub fn task_done(t: TaskId) -> bool {
     try_with(|w| w.tasks.get(t).map(|k| k.state == TState::Done).unwrap_or(true)).unwrap_or(true)
 }
 
+pub fn current_task_id() -> Option<TaskId> {
+    try_with(|w| w.current).flatten()
+}
+
 pub fn current_task_name() -> Option<String> {
     try_with(|w| w.current.map(|t| w.tasks[t].name.clone())).flatten()
 }
